@@ -147,3 +147,25 @@ impl<W: Write + Seek> Mp4Writer<W> {
         Ok(())
     }
 }
+
+/// Read-only snapshot of the muxer state (verification hook).
+#[cfg(feature = "verif-hooks")]
+#[derive(Debug, Clone, PartialEq, Eq)]
+pub struct VerifWriterState {
+    pub mdat_pos: u64,
+    pub timescale: u32,
+    pub duration: u64,
+    pub tracks: Vec<crate::track::VerifTrackState>,
+}
+
+#[cfg(feature = "verif-hooks")]
+impl<W> Mp4Writer<W> {
+    pub fn verif_state(&self) -> VerifWriterState {
+        VerifWriterState {
+            mdat_pos: self.mdat_pos,
+            timescale: self.timescale,
+            duration: self.duration,
+            tracks: self.tracks.iter().map(|t| t.verif_snapshot()).collect(),
+        }
+    }
+}
